@@ -2637,6 +2637,13 @@ impl Block {
         block
     }
 
+    /// whether the block carries a placeholder for a transaction that was left out (lite blocks do)
+    fn has_placeholder_transaction(&self) -> bool {
+        self.transactions
+            .iter()
+            .any(|tx| tx.transaction_type == TransactionType::SPV)
+    }
+
     /// whether the ATR transactions of this block spend, one by one and in order, the outputs the given
     /// rebroadcast transactions spend
     fn rebroadcasts_spend_same_outputs(&self, rebroadcasts: &Vec<Transaction>) -> bool {
@@ -2699,6 +2706,17 @@ impl Block {
         //
         if self.transactions.is_empty() && self.id != 1 && !blockchain.blocks.is_empty() {
             error!("ERROR 424342: block does not validate as it has no transactions",);
+            return false;
+        }
+
+        //
+        // placeholders stand in for the transactions a lite block leaves out. a placeholder supplies
+        // its own merkle leaf, so a block that validates its transactions cannot carry one: any of
+        // its transactions could be swapped for a placeholder after signing without the merkle root,
+        // the signature or the block hash changing
+        //
+        if !configs.is_browser() && self.has_placeholder_transaction() {
+            error!("ERROR 424343: block carries a placeholder (SPV) transaction");
             return false;
         }
 
